@@ -138,9 +138,17 @@ func (in *Interp) newSymNode(root, path string, depth int, widths map[string]int
 	in.assume(tt.Implies(prim, tt.Eq(n.nkids, c64(0))))
 	// constructed with no children has empty content
 	in.assume(tt.Implies(tt.And(tt.Not(prim), tt.Eq(n.nkids, c64(0))), tt.Eq(n.data.LenTerm(tt), c64(0))))
+	if path != "" {
+		// a child that looks like an end-of-contents marker is rejected by the reader
+		in.assume(tt.Not(tt.And(univPrimOf(tt, n), tt.Eq(n.tag, c64(0)), tt.Eq(n.data.LenTerm(tt), c64(0)))))
+	}
 	// float / generalized time payloads are opaque: outside the model
 	univPrim := tt.And(tt.Eq(n.class, c8(0)), prim)
 	in.assume(tt.Not(tt.And(univPrim, tt.Or(tt.Eq(n.tag, c64(9)), tt.Eq(n.tag, c64(24))))))
+	// UTF8String / PrintableString / IA5String carry content-validity rules in the
+	// reader (invalid content = read error); they yield the same Value kind as
+	// OCTET STRING, through which they are modelled
+	in.assume(tt.Not(tt.And(univPrim, tt.Or(tt.Eq(n.tag, c64(12)), tt.Eq(n.tag, c64(19)), tt.Eq(n.tag, c64(22))))))
 
 	// build the ber.Packet struct cell
 	pt := in.P.Ber.Type("Packet").Type()
@@ -168,6 +176,10 @@ func (in *Interp) newSymNode(root, path string, depth int, widths map[string]int
 	n.cell = cell
 	in.symNode[cell] = n
 	return n
+}
+
+func univPrimOf(tt *TermTable, n *SymNode) *Term {
+	return tt.And(tt.Eq(n.class, tt.BVConst(0, 8)), tt.Eq(n.ttype, tt.BVConst(0, 8)))
 }
 
 func (n *SymNode) valueKindIs(in *Interp, kind string) *Term {
@@ -210,12 +222,11 @@ func (in *Interp) parseIntOf(s Str) *Term {
 		return tt.SignExt(acc, 64)
 	}
 	L := s.LenTerm(tt)
-	seq := s.SeqTerm(tt)
 	res := tt.BVConst(0, 64)
 	for k := 8; k >= 1; k-- {
 		var acc *Term
 		for i := 0; i < k; i++ {
-			b := tt.SeqNth(seq, tt.IntConst(int64(i)))
+			b := in.byteTerm(in.strByte(s, i))
 			if acc == nil {
 				acc = b
 			} else {
